@@ -83,6 +83,13 @@ impl Frame {
         }
     }
 
+    // Declare that an id is being assigned to, for ids that weren't noted as an access while the
+    // LHS was parsed (key rebinds with `as`, entries of map patterns): no pending access belongs to
+    // the assignment, so none may be discarded.
+    fn add_local_id_assignment_without_access(&mut self, id: ConstantIndex) {
+        self.pending_assignments.insert(id);
+    }
+
     // At the end of an expression, determine which RHS accesses are non-local
     fn finalize_id_accesses(&mut self) {
         for (id, _) in self.pending_accesses.drain() {
@@ -840,8 +847,11 @@ impl<'source> Parser<'source> {
                     self.frame_mut()?.add_local_id_assignment(id_index);
                 }
                 Node::Meta { .. } | Node::Chain(_) | Node::Ignored(..) => {}
-                Node::Map { entries, .. } | Node::MapPattern { entries, .. } => {
-                    self.add_local_ids_for_map_assignment(&entries)?
+                // The shorthand entries of an inline map (`{x} = ...`) were parsed as expressions
+                // and noted as accesses, the entries of a map pattern (`let {x} = ...`) weren't.
+                Node::Map { entries, .. } => self.add_local_ids_for_map_assignment(&entries, true)?,
+                Node::MapPattern { entries, .. } => {
+                    self.add_local_ids_for_map_assignment(&entries, false)?
                 }
                 _ => return self.error(SyntaxError::ExpectedAssignmentTarget),
             }
@@ -891,20 +901,32 @@ impl<'source> Parser<'source> {
         }
     }
 
-    fn add_local_ids_for_map_assignment(&mut self, entries: &[AstIndex]) -> Result<()> {
+    fn add_local_ids_for_map_assignment(
+        &mut self,
+        entries: &[AstIndex],
+        ids_were_accessed: bool,
+    ) -> Result<()> {
         for &entry in entries {
             match self.ast.node(entry).node {
                 Node::Id(id, _) => {
-                    self.frame_mut()?.add_local_id_assignment(id);
+                    if ids_were_accessed {
+                        self.frame_mut()?.add_local_id_assignment(id);
+                    } else {
+                        self.frame_mut()?.add_local_id_assignment_without_access(id);
+                    }
                 }
                 Node::MapKeyRebind { id_or_ignored, .. } => {
                     match self.ast.node(id_or_ignored).node.clone() {
                         Node::Id(id, _) => {
-                            self.frame_mut()?.add_local_id_assignment(id);
+                            // The target of `key as id` is never parsed as an expression
+                            self.frame_mut()?.add_local_id_assignment_without_access(id);
                         }
                         Node::Ignored(..) => (),
-                        Node::Map { entries, .. } | Node::MapPattern { entries, .. } => {
-                            self.add_local_ids_for_map_assignment(&entries)?;
+                        Node::Map { entries, .. } => {
+                            self.add_local_ids_for_map_assignment(&entries, true)?;
+                        }
+                        Node::MapPattern { entries, .. } => {
+                            self.add_local_ids_for_map_assignment(&entries, false)?;
                         }
                         _ => {
                             return self.error_with_span_of(
